@@ -266,3 +266,14 @@ def seed_from_env(default=20260101):
         return int(os.environ.get("VERIF_SEED", default))
     except ValueError:
         return default
+
+
+def canon(x):
+    """order-insensitive (for dicts and sets) printable form of a Python value"""
+    if isinstance(x, dict):
+        return "{" + ",".join(sorted(f"{canon(k)}:{canon(v)}" for k, v in x.items())) + "}"
+    if isinstance(x, (set, frozenset)):
+        return "{" + ",".join(sorted(canon(v) for v in x)) + "}"
+    if isinstance(x, (list, tuple)):
+        return ("[" if isinstance(x, list) else "(") + ",".join(canon(v) for v in x) + "]"
+    return f"{type(x).__name__}:{x!r}"
